@@ -132,6 +132,34 @@ def run_shard(spec_, res):
             res.count("unsaveable_cases")
             continue
         judge(res, raw, build.norm(c.snap, "before"), c.describe(), "project", obj=c.obj)
+        # the object has been written once; now ONE field of some MIDI bindings / of the project changes and it is written again
+        try:
+            import random as _r3
+            from rv.cmidmap import MidiMessageType, Slope
+            rr = _r3.Random(i)
+            touched = 0
+            for mod in [m for m in c.obj.modules if m is not None]:
+                names = list(mod.controller_midi_maps) or list(type(mod).controllers)[:2]
+                for nm in rr.sample(names, min(2, len(names))):
+                    if nm not in type(mod).controllers or not type(mod).controllers[nm].attached(mod):
+                        continue
+                    cm = mod.controller_midi_maps[nm]
+                    field = rr.choice(("slope", "slope", "channel", "message_parameter", "message_type"))
+                    if field == "slope":
+                        cm.slope = Slope((cm.slope.value + 1 + rr.randrange(4)) % 6)
+                    elif field == "channel":
+                        cm.channel = (cm.channel + 1) % 17
+                    elif field == "message_parameter":
+                        cm.message_parameter = (cm.message_parameter + 1) % 65536
+                    else:
+                        cm.message_type = MidiMessageType((cm.message_type.value + 1) % 9)
+                    touched += 1
+            if touched:
+                res.count("second_writes_after_single_field_edits")
+                judge(res, c.obj.read(), build.norm(snapshot.snap_project(c.obj), "before"), dict(c.describe(), second_write=True), "project-second-write", obj=c.obj)
+        except Exception as e:
+            res.count("second_write_failed")
+            res.hist("second_write_failed_why", workload.exc_key(e))
     # every module type, both contexts (C02 workload)
     types = sorted(T for T in spec.load() if T != "Output")
     for rnd in range(spec_["rounds"]):
@@ -240,6 +268,31 @@ def run_shard(spec_, res):
             judge(res, p.read(), build.norm(snapshot.snap_project(p), "before"), {"type": T, "fresh_in_place": True}, f"project-fresh-in-place:{T}")
         except Exception as e:
             res.violation(f"C03:save-raises:{T}:{workload.exc_key(e)}", f"saving a fresh {T} after in-place payload edits raised {e!r}", {"type": T})
+    # effects inside effects: a Sampler whose effect synth holds a Sampler that has an effect of its own, directly or through
+    # the project of a MetaModule
+    if spec_["shard"] == 0:
+        for k in range(4):
+            try:
+                innermost = api.m.Sampler(name="innermost")
+                innermost.effect = api.Synth(api.m.Reverb(name="deep verb", wet=77 + k))
+                if k % 2:
+                    inner_p = api.Project()
+                    inner_p.attach_module(innermost)
+                    middle = api.m.MetaModule(project=inner_p, name="wrapper")
+                else:
+                    middle = api.m.Sampler(name="middle")
+                    middle.effect = api.Synth(innermost)
+                outer = api.m.Sampler(name="outer")
+                outer.effect = api.Synth(middle)
+                syn = api.Synth(outer)
+                res.count("effects_inside_effects")
+                judge(res, syn.read(), build.norm(snapshot.snap_synth(syn), "before"), {"nested_effects": k}, "synth-effects-inside-effects")
+                p = api.Project()
+                p.attach_module(outer)
+                p.new_module(api.m.Sampler, name="sibling").effect = api.Synth(api.m.Echo())
+                judge(res, p.read(), build.norm(snapshot.snap_project(p), "before"), {"nested_effects": k}, "project-effects-inside-effects")
+            except Exception as e:
+                res.violation(f"C03:save-raises:nested-effects:{workload.exc_key(e)}", f"saving samplers with effects inside effects raised {e!r}", {"nested_effects": k})
     # several MetaModules side by side in ONE project (different numbers of exposed controllers)
     for k in range(3):
         try:
